@@ -4,7 +4,7 @@ import json
 props = {json.loads(l)["id"]: json.loads(l) for l in open("/verif/properties.jsonl")}
 pins = json.load(open("/verif/pins.json"))
 TEXT = {
- "C01": "Coq theorems: lex_total (the lexer returns a token list for every source < 4 GiB in both profiles: no panic, no slice off a character boundary, loops terminate) and parse_never_crashes (for every source and any fuel the parser model never reaches any of its panic/unchecked sites — unwrap, unchecked_unwrap, extract_unchecked, assert, debug_assert, buffer slicing for poetic strings — and every error it returns renders), proved through a parser-wide safety invariant over token lists that are ordered slices of the buffer (what C12 proves of the lexer); tied by LEX and PARSE correspondence on exhaustive small strings, token soup, mutated corpus, deep nesting, both profiles, with crash/hang detection.",
+ "C01": "Coq theorems: lex_total (the lexer returns a token list for every source < 4 GiB in both profiles: no panic, no slice off a character boundary, loops terminate) parse_total (every source < 4 GiB yields a program or an error that renders: the model's fuel never runs out because every parser loop consumes a token and the precedence-ladder descent is bounded — the theorem that excludes a non-consuming top-level loop such as the repaired stray-`else` defect) and parse_never_crashes (for every source and any fuel the parser model never reaches any of its panic/unchecked sites — unwrap, unchecked_unwrap, extract_unchecked, assert, debug_assert, buffer slicing for poetic strings — and every error it returns renders), proved through a parser-wide safety invariant over token lists that are ordered slices of the buffer (what C12 proves of the lexer); tied by LEX and PARSE correspondence on exhaustive small strings, token soup, mutated corpus, deep nesting, both profiles, with crash/hang detection.",
  "C02": "Coq theorems: every expression tree the parser model returns is a tree of the declarative grammar (Front/Grammar.v: precedence ladder, left-associative chains, list operands, is-comparisons, subscripts, call arguments and their separators) for exactly the tokens consumed, and every tree of that grammar obeys the precedence/associativity discipline; every keyword alias in any letter case lexes to its type; number and string tokens carry exactly their written value; tied by PARSE correspondence on generated trees in 4 spellings each (aliases, case, noise, comments, separators, Unicode whitespace) + the spelling-invariance oracle on the implementation.",
  "C03": "Coq theorems: the model of val.rs computes exactly the declarative 6x6 coercion tables for + - * / equality ordering, negation, not, inc/dec, printed text; evaluation clauses for left-to-right list folding, short-circuit (operand not evaluated, result sound), compound assignment; tied by VAL (exhaustive UxU) and one-line programs for every operator alias on every pair of source values.",
  "C04": "Coq theorems: semantic clauses of if / while / until / block / break / continue as one-step unfoldings of the interpreter model, error stops the block, output written before an error is preserved (from the global interpreter invariant); tied by EXEC control-flow skeletons incl. side-effecting loop conditions and write faults.",
